@@ -5,9 +5,11 @@ import (
 	"testing"
 	"time"
 
+	mintertypes "github.com/chain4energy/c4e-chain/x/cfeminter/types"
 	vestingtypes "github.com/chain4energy/c4e-chain/x/cfevesting/types"
 	sdk "github.com/cosmos/cosmos-sdk/types"
 	banktypes "github.com/cosmos/cosmos-sdk/x/bank/types"
+	govtypes "github.com/cosmos/cosmos-sdk/x/gov/types"
 	govv1 "github.com/cosmos/cosmos-sdk/x/gov/types/v1"
 	"pgregory.net/rapid"
 )
@@ -19,6 +21,20 @@ func runVestMachine(t *rapid.T, on ...string) *vestMachine {
 	}
 	m.v = NewVestWorld(GenVTypes(t))
 	m.note("vesting types %s", jsonStr(m.v.VTypes))
+	if rapid.IntRange(0, 2).Draw(t, "govOwnsPools") == 0 {
+		// the governance module account holds coins and may own pools (module-to-module transfer: no
+		// assumption about which addresses the bank lets receive coins)
+		m.govOwner = true
+		coins := sdk.NewCoins(sdk.NewCoin(Denom, sdk.NewIntFromBigInt(pow10[24])), sdk.NewCoin("uatom", sdk.NewIntFromBigInt(pow10[24])))
+		c := m.v.Ctx.WithEventManager(sdk.NewEventManager())
+		if err := m.v.App.BankKeeper.MintCoins(c, mintertypes.ModuleName, coins); err != nil {
+			panic(err)
+		}
+		if err := m.v.App.BankKeeper.SendCoinsFromModuleToModule(c, mintertypes.ModuleName, govtypes.ModuleName, coins); err != nil {
+			panic(err)
+		}
+		m.note("the governance module account holds %s and may own pools", coins)
+	}
 	m.seedGenesisPools()
 	m.seedPools()
 	t.Repeat(m.actions())
@@ -33,6 +49,12 @@ func TestC05(t *testing.T) {
 		var cl []string
 		if m.rejectedAfterImplicitWithdraw > 0 {
 			cl = append(cl, "rejected_after_implicit_withdraw")
+		}
+		if m.genesisBalanceOffRefused > 0 {
+			cl = append(cl, "genesis_with_wrong_module_balance_refused")
+		}
+		if m.govOwner {
+			cl = append(cl, "governance_account_may_own_pools")
 		}
 		if m.acceptedSend > 0 {
 			cl = append(cl, "accepted_send")
@@ -89,6 +111,9 @@ func TestC08(t *testing.T) {
 		}
 		if m.exactRemainder > 0 {
 			cl = append(cl, "exact_remainder_amount")
+		}
+		if m.directCliff > 0 {
+			cl = append(cl, "direct_creation_with_start_equal_end")
 		}
 		if m.acceptedSend > 0 {
 			cl = append(cl, "accepted_send")
